@@ -57,6 +57,7 @@ const (
 	OFFloor  // roundToIntegral RTN
 	OFTrunc  // roundToIntegral RTZ
 	OFRound32 // round to float32 precision and back
+	OFRoundNA // roundToIntegral RNA (math.Round)
 	OFIsInf
 	OFIsZero
 	OFIsNeg // sign bit set (fp.isNegative; false for NaN)
@@ -579,7 +580,7 @@ func (c *emitCtx) ref(t *Term) string {
 		e = fmt.Sprintf("((_ extract %d 0) %s)", t.W-1, c.ref(t.A))
 	case OFAdd, OFSub, OFMul, OFDiv, OFLt, OFLe, OFEq:
 		e = "(" + fopName[t.Op] + " " + c.ref(t.A) + " " + c.ref(t.B) + ")"
-	case OFNeg, OFIsNaN, OFCeil, OFFloor, OFTrunc, OFIsInf, OFIsZero, OFIsNeg:
+	case OFNeg, OFIsNaN, OFCeil, OFFloor, OFTrunc, OFRoundNA, OFIsInf, OFIsZero, OFIsNeg:
 		e = "(" + fopName[t.Op] + " " + c.ref(t.A) + ")"
 	case OBV2F:
 		e = "((_ to_fp 11 53) " + c.ref(t.A) + ")"
@@ -692,6 +693,8 @@ func (ev *evaluator) eval1(t *Term) uint64 {
 		return fb(math.Floor(f(t.A)))
 	case OFTrunc:
 		return fb(math.Trunc(f(t.A)))
+	case OFRoundNA:
+		return fb(math.Round(f(t.A)))
 	case OFRound32:
 		return fb(float64(float32(f(t.A))))
 	case OBV2F:
@@ -788,6 +791,8 @@ func FUn(op Op, a *Term) *Term {
 			return FConst(math.Floor(x))
 		case OFTrunc:
 			return FConst(math.Trunc(x))
+		case OFRoundNA:
+			return FConst(math.Round(x))
 		case OFRound32:
 			return FConst(float64(float32(x)))
 		}
@@ -801,7 +806,7 @@ func FUn(op Op, a *Term) *Term {
 		nan := func(x *Term) *Term { return FUn(OFIsNaN, x) }
 		neg := func(x *Term) *Term { return FUn(OFIsNeg, x) }
 		switch a.Op {
-		case OFNeg, OFCeil, OFFloor, OFTrunc, OFRound32:
+		case OFNeg, OFCeil, OFFloor, OFTrunc, OFRound32, OFRoundNA:
 			return nan(a.A)
 		case OS2F, OU2F:
 			return tFalse
@@ -881,4 +886,4 @@ func cvttsd2sq(f float64) int64 {
 var fopName = map[Op]string{OFAdd: "fp.add RNE", OFSub: "fp.sub RNE", OFMul: "fp.mul RNE", OFDiv: "fp.div RNE",
 	OFLt: "fp.lt", OFLe: "fp.leq", OFEq: "fp.eq", OFNeg: "fp.neg", OFIsNaN: "fp.isNaN",
 	OFIsInf: "fp.isInfinite", OFIsZero: "fp.isZero", OFIsNeg: "fp.isNegative",
-	OFCeil: "fp.roundToIntegral RTP", OFFloor: "fp.roundToIntegral RTN", OFTrunc: "fp.roundToIntegral RTZ"}
+	OFCeil: "fp.roundToIntegral RTP", OFFloor: "fp.roundToIntegral RTN", OFTrunc: "fp.roundToIntegral RTZ", OFRoundNA: "fp.roundToIntegral RNA"}
